@@ -749,6 +749,15 @@ def discharge_long(S: Sorts, vc: VC, timeout_ms: int, use_cvc5: bool = True) -> 
     detail = "z3(%ds): %s" % (timeout_ms // 1000, r)
     if r == "unsat":
         return VCResult(vc.name, "unsat", "z3", dt, path=vc.path, detail=detail)
+    if r == "unknown":
+        # z3's quantifier instantiation is sensitive to search order: an obligation that normally takes milliseconds occasionally diverges.
+        # Independent re-tries with other random seeds (e-matching only, short) make the verdict on the unchanged tree stable.
+        for sd in (11, 23, 47, 101):
+            r1, dt1, _, _ = z3_check(S, vc.pc, goal, 8000, mbqi=False, seed=sd)
+            dt += dt1
+            if r1 == "unsat":
+                return VCResult(vc.name, "unsat", "z3(e-matching,seed=%d)" % sd, dt, path=vc.path, detail=detail + "; reseeded: unsat")
+        detail += "; 4 reseeded retries: unknown"
     if r == "unknown" and use_cvc5:
         r2, dt2, info = cvc5_check(solver, max(10, timeout_ms // 1000))
         dt += dt2
